@@ -144,8 +144,20 @@ impl Filter for RecFilter {
         event(self.port, "demob".into());
     }
     fn current_estimates(&self) -> FilterEstimate {
-        FilterEstimate { offset_from_master: Duration::ZERO, mean_delay: Duration::ZERO }
+        // constants that name the port (the observable current data set takes them from the Slave port only)
+        FilterEstimate {
+            offset_from_master: Duration::from_fixed_nanos(fixed::types::I96F32::from_bits(est_offset_bits(self.port))),
+            mean_delay: Duration::from_fixed_nanos(fixed::types::I96F32::from_bits(est_delay_bits(self.port))),
+        }
     }
+}
+
+/// what the recording filter of port `k` reports as its estimates (see `current_estimates`)
+pub fn est_offset_bits(k: usize) -> i128 {
+    -((1000 + k as i128) << 32) - 7
+}
+pub fn est_delay_bits(k: usize) -> i128 {
+    ((2000 + k as i128) << 32) + 9
 }
 
 pub fn tp_str(t: &TimePropertiesDS) -> String {
@@ -366,6 +378,86 @@ impl InstExec {
 
     pub fn port_cfg(&self, k: usize) -> Option<PortCfgLite> {
         self.cfgs.get(k.wrapping_sub(1)).copied()
+    }
+
+    /// `DUMP`: the data sets as the daemon exposes them for observation (`statime-linux/src/main.rs` builds its
+    /// `ObservableInstanceState` from exactly these getters after every BMCA run), every field
+    fn observable_dump(&self) -> String {
+        let inst = self.inst.unwrap();
+        let tiv = |t: statime::observability::port::DelayMechanism| -> (String, i8, String) {
+            use statime::observability::port::DelayMechanism as D;
+            match t {
+                D::E2E { log_min_delay_req_interval } => ("E2E".into(), log_min_delay_req_interval, "-".into()),
+                D::P2P { log_min_p_delay_req_interval, mean_link_delay } => ("P2P".into(), log_min_p_delay_req_interval, hook::duration_to_time_interval_bits(Duration::from(mean_link_delay)).to_string()),
+                other => (format!("{other:?}"), 0, "-".into()),
+            }
+        };
+        let mut contribution = None;
+        let mut ports = Vec::new();
+        for (i, s) in self.ports.iter().enumerate() {
+            let (ds, c) = match s {
+                Slot::Running(p) => (p.port_ds(), p.port_current_ds_contribution()),
+                Slot::InBmca(p) => (p.port_ds(), p.port_current_ds_contribution()),
+                Slot::Taken => unreachable!(),
+            };
+            if contribution.is_none() {
+                contribution = c;
+            }
+            let (mech, dl, mld) = tiv(ds.delay_mechanism);
+            ports.push(format!(
+                "P{} {} {:?} {} {} {} {} {} {} {} {} {} {}",
+                i + 1,
+                pid_str(&ds.port_identity.clock_identity.0, ds.port_identity.port_number),
+                ds.port_state,
+                ds.log_announce_interval,
+                ds.announce_receipt_timeout,
+                ds.log_sync_interval,
+                mech,
+                dl,
+                mld,
+                ds.version_number,
+                ds.minor_version_number,
+                hook::duration_to_time_interval_bits(Duration::from(ds.delay_asymmetry)),
+                ds.master_only as u8
+            ));
+        }
+        let cur = inst.current_ds(contribution);
+        let par = inst.parent_ds();
+        let tp = inst.time_properties_ds();
+        let pt = inst.path_trace_ds();
+        let df = inst.default_ds();
+        let path = if pt.list.is_empty() { "-".to_string() } else { pt.list.iter().map(|c| hex(&c.0)).collect::<Vec<_>>().join(",") };
+        let mut out = format!(
+            "OBSV DF {} {} {} {} {} {} {} {} {} {} | CU {} {} {} | PA {} {} {} {} {} {} {} | TP {} | PT {} {}",
+            hex(&df.clock_identity.0),
+            df.number_ports,
+            df.clock_quality.clock_class,
+            df.clock_quality.clock_accuracy.to_primitive(),
+            df.clock_quality.offset_scaled_log_variance,
+            df.priority_1,
+            df.priority_2,
+            df.domain_number,
+            df.slave_only as u8,
+            u16::from(df.sdo_id),
+            cur.steps_removed,
+            cur.offset_from_master.nanos().to_bits(),
+            cur.mean_delay.nanos().to_bits(),
+            pid_str(&par.parent_port_identity.clock_identity.0, par.parent_port_identity.port_number),
+            hex(&par.grandmaster_identity.0),
+            par.grandmaster_clock_quality.clock_class,
+            par.grandmaster_clock_quality.clock_accuracy.to_primitive(),
+            par.grandmaster_clock_quality.offset_scaled_log_variance,
+            par.grandmaster_priority_1,
+            par.grandmaster_priority_2,
+            tp_str(&tp),
+            pt.enable as u8,
+            path
+        );
+        for p in ports {
+            out.push_str(" | ");
+            out.push_str(&p);
+        }
+        out
     }
 
     fn state_line(&self) -> String {
@@ -746,6 +838,18 @@ impl Executor for InstExec {
         }
         if self.inst.is_none() {
             return "dead".into();
+        }
+        if w.first() == Some(&"DUMP") && w.len() == 1 {
+            let r = guarded(|| self.observable_dump());
+            take_lock_trace();
+            return match r {
+                Ok(s) => s,
+                Err(_) => {
+                    self.inst = None;
+                    self.ports.clear();
+                    "R panic".into()
+                }
+            };
         }
         match self.run(&w) {
             None => "bad-op".into(),
